@@ -2859,6 +2859,8 @@ impl<'a> Serializer for &'a mut KeyScalarSink<'a> {
                     '\n' => self.s.push_str("\\n"),
                     '\r' => self.s.push_str("\\r"),
                     '\t' => self.s.push_str("\\t"),
+                    // Not a control character, but must not be taken for a byte order mark.
+                    '\u{FEFF}' => self.s.push_str("\\uFEFF"),
                     c if c.is_control() => {
                         use std::fmt::Write as _;
                         // Writing into a String cannot fail; ignore the Result to avoid unwrap.
